@@ -8,6 +8,7 @@ import (
 	"regexp"
 	"sort"
 	"strings"
+	gosync "sync"
 	"time"
 
 	"github.com/nspcc-dev/neo-go/pkg/config"
@@ -90,6 +91,10 @@ type confT struct {
 	prof  profT
 	trie  *trieT
 	items []storage.KeyValue
+	// ext_init: roots of the tries holding the first k items (foreign roots for InitContractStorageSync)
+	preOnce gosync.Once
+	pre     []util.Uint256
+	preErr  error
 }
 
 func (c *confT) name() string {
@@ -97,12 +102,12 @@ func (c *confT) name() string {
 	if c.Trust != 0 {
 		t = fmt.Sprintf("/T%d", c.Trust)
 	}
-	return fmt.Sprintf("%s/P%d%s/%s/%s", c.src.id, c.P, t, c.Mode, c.Order)
+	return fmt.Sprintf("%s/P%d%s/%s/%s", c.src.id, c.P, t, c.modeName(), c.Order)
 }
 
 // group identifies source, sync point and node configuration (not the order).
 func (c *confT) group() string {
-	return fmt.Sprintf("%s/P%d/T%d/%s", c.src.id, c.P, c.Trust, c.Mode)
+	return fmt.Sprintf("%s/P%d/T%d/%s", c.src.id, c.P, c.Trust, c.modeName())
 }
 
 func (c *confT) opts(st storage.Store) chainx.Opts {
@@ -132,26 +137,27 @@ func (c *confT) opts(st storage.Store) chainx.Opts {
 
 // runner is one live syncing node plus the trace that led to its state.
 type runner struct {
-	c        *confT
-	n        *chainx.Node
-	m        *statesync.Module
-	rs       *chainx.RecStore
-	base     []chainx.Batch // batches that made the initial content of rs (after a crash)
-	tr       []Ev
-	initH    uint32
-	nRestart int
-	prevLog  int // log length before the last state-changing event
-	postLog  int // log length right after it (probes may append content-neutral batches later)
-	digN     int
-	dig      string
-	digRS    *chainx.RecStore
-	itemsOK  bool // InitContractStorageSync done on this module instance
-	redone   bool // the full item list was delivered again after a mismatch
-	dirty    int  // items mode: wrong/omitted data delivered since the last full redelivery
-	lastFrom int  // items mode: last batch (for the duplicate probe)
-	lastTo   int
-	poisoned bool // a panic happened: locks may be held, do not Close
-	stats    *statsT
+	c         *confT
+	n         *chainx.Node
+	m         *statesync.Module
+	rs        *chainx.RecStore
+	base      []chainx.Batch // batches that made the initial content of rs (after a crash)
+	tr        []Ev
+	initH     uint32
+	nRestart  int
+	prevLog   int // log length before the last state-changing event
+	postLog   int // log length right after it (probes may append content-neutral batches later)
+	digN      int
+	dig       string
+	digRS     *chainx.RecStore
+	itemsOK   bool // InitContractStorageSync done on this module instance
+	announced bool // ext_init: a probe announced the genuine root to this module instance
+	redone    bool // the full item list was delivered again after a mismatch
+	dirty     int  // items mode: wrong/omitted data delivered since the last full redelivery
+	lastFrom  int  // items mode: last batch (for the duplicate probe)
+	lastTo    int
+	poisoned  bool // a panic happened: locks may be held, do not Close
+	stats     *statsT
 }
 
 var hexRe = regexp.MustCompile(`[0-9a-fA-F]{16,}`)
@@ -212,6 +218,7 @@ func (r *runner) open() *viol {
 	r.n = n
 	r.m = n.BC.GetStateSyncModule()
 	r.itemsOK = false
+	r.announced = false
 	ierr, pan := guard(func() error { return r.m.Init(r.initH) })
 	if pan != nil {
 		r.poisoned = true
@@ -463,6 +470,10 @@ func (r *runner) succ(used int) (def *Ev, alts []altT, v *viol) {
 			}
 			alts = append(alts, altT{Ev{K: "mix", H: hx(d)}, oc})
 		}
+	case m.NeedStorageData() && c.Mode == "items" && !r.itemsOK:
+		// the state source announces the root of the sync point before any item
+		// (statefetcher does so on every start); wrong roots are in the probe menu
+		def = &Ev{K: "init"}
 	case m.NeedStorageData() && c.Mode == "items":
 		pos := r.itemPos()
 		if pos < 0 {
@@ -651,6 +662,14 @@ func (r *runner) do(e Ev) (v *viol) {
 		} else {
 			r.stats.outcome("mpt-stage-advanced-only-by-a-later-duplicate-message")
 		}
+	case "init":
+		err, pan = guard(func() error { return r.m.InitContractStorageSync(r.genuineRoot()) })
+		if pan == nil && err != nil {
+			v = fail("storage-sync-init-failed", "InitContractStorageSync(%d, source root) after %d restarts: %v", c.P, r.nRestart, err)
+		} else if pan == nil {
+			r.itemsOK = true
+			r.stats.initEvents.Inc()
+		}
 	case "items":
 		v, pan = r.doItems(e)
 	case "blk":
@@ -750,7 +769,7 @@ func (r *runner) doItems(e Ev) (v *viol, pan any) {
 	if !r.itemsOK {
 		var err error
 		err, pan = guard(func() error {
-			return r.m.InitContractStorageSync(state.MPTRoot{Index: c.P, Root: c.trie.Root})
+			return r.m.InitContractStorageSync(r.genuineRoot())
 		})
 		if pan != nil {
 			return nil, pan
@@ -920,6 +939,8 @@ type probeT struct {
 	e       Ev
 	needErr bool // an error is required (corrupted headers/blocks, wrong stage where the code documents one)
 	f       func() error
+	mustOK  bool         // ext_init: the delivery is genuine (a repetition): an error is a violation
+	post    func() *viol // ext_init: a follow-up that exposes a change of the module's memory the state key cannot see
 }
 
 func (r *runner) probes() []probeT {
@@ -928,7 +949,7 @@ func (r *runner) probes() []probeT {
 	tip := src.tip
 	var ps []probeT
 	add := func(k string, n int, needErr bool, f func() error) {
-		ps = append(ps, probeT{Ev{K: k, N: n, P: true}, needErr, f})
+		ps = append(ps, probeT{e: Ev{K: k, N: n, P: true}, needErr: needErr, f: f})
 	}
 	hdrMut := func(h *block.Header, variant int) {
 		switch variant {
@@ -969,6 +990,9 @@ func (r *runner) probes() []probeT {
 				if vnt == 2 && hh+1 == c.Trust {
 					continue // the trusted header is identified by its hash, which does not cover the witness
 				}
+				if vnt == 4 && !src.fam.srih() {
+					continue // no state root in the header: nothing to tamper with
+				}
 				add("p-hdr-bad", vnt, true, func() error {
 					h := src.headers(hh+1, hh+1)[0]
 					hdrMut(h, vnt)
@@ -988,6 +1012,8 @@ func (r *runner) probes() []probeT {
 			add("p-node-early", 0, true, func() error { return m.AddMPTNodes([][]byte{rootNode}) })
 		}
 		add("p-blk-early", 0, false, func() error { return m.AddBlock(src.block(c.P)) })
+		ps = append(ps, r.initProbesEarly()...)
+		ps = append(ps, r.itemsOffStage("early")...)
 	case active && m.NeedStorageData() && c.Mode == "mpt":
 		u := r.unknown()
 		if len(u) == 0 {
@@ -1052,14 +1078,17 @@ func (r *runner) probes() []probeT {
 		add("p-hdr-late", 0, true, func() error { return m.AddHeaders(src.headers(tip, tip)...) })
 		add("p-blk-early", 0, false, func() error { return m.AddBlock(src.block(c.P)) })
 		add("p-items-empty", 0, true, func() error { return m.AddContractStorageItems(nil) })
-		add("p-items-root-bad", 0, true, func() error {
-			rt := c.trie.Root
-			rt[0] ^= 1
-			return m.InitContractStorageSync(state.MPTRoot{Index: c.P, Root: rt})
-		})
+		if r.rootExpected() {
+			add("p-items-root-bad", 0, true, func() error {
+				rt := c.trie.Root
+				rt[0] ^= 1
+				return m.InitContractStorageSync(state.MPTRoot{Index: c.P, Root: rt})
+			})
+		}
 		add("p-items-root-height-bad", 0, true, func() error {
 			return m.InitContractStorageSync(state.MPTRoot{Index: c.P + 1, Root: c.trie.Root})
 		})
+		ps = append(ps, r.initProbes()...)
 		if r.itemsOK && r.lastTo > r.lastFrom && r.itemPos() == r.lastTo && r.dirty == 0 {
 			from, to := r.lastFrom, r.lastTo
 			add("p-items-dup", 0, false, func() error { return m.AddContractStorageItems(c.items[from:to]) })
@@ -1067,6 +1096,8 @@ func (r *runner) probes() []probeT {
 	case active && m.NeedBlocks():
 		mbh := m.BlockHeight()
 		next := mbh + 1
+		ps = append(ps, r.initProbesLate()...)
+		ps = append(ps, r.itemsOffStage("late")...)
 		add("p-hdr-late", 0, true, func() error { return m.AddHeaders(src.headers(tip, tip)...) })
 		if c.Mode == "mpt" {
 			add("p-node-late", 0, true, func() error { return m.AddMPTNodes([][]byte{rootNode}) })
@@ -1085,6 +1116,8 @@ func (r *runner) probes() []probeT {
 		}
 	case !active:
 		bh := bc.BlockHeight()
+		ps = append(ps, r.initProbesDone()...)
+		ps = append(ps, r.itemsOffStage("done")...)
 		add("p-m-hdr", 0, true, func() error { return m.AddHeaders(src.headers(tip, tip)...) })
 		if c.Mode == "mpt" {
 			add("p-m-node", 0, true, func() error { return m.AddMPTNodes([][]byte{rootNode}) })
@@ -1101,9 +1134,16 @@ func (r *runner) probes() []probeT {
 				if vnt == 0 && bc.HeaderHeight() < bh+1 {
 					continue // valid header, wrong body: AddBlock stores the (valid) header before it checks the body
 				}
+				if vnt == 3 && !src.fam.srih() {
+					continue // no state root in the header: nothing to tamper with
+				}
 				add("p-pblk-bad", vnt, true, func() error { return bc.AddBlock(badBlock(src.block(bh+1), vnt)) })
 			}
 		}
+	}
+	ps = append(ps, r.moduleInitAgain())
+	if c.Mode == "mpt" && active && m.NeedStorageData() {
+		ps = append(ps, probeT{e: Ev{K: "p-unknown-batch-limits", P: true}, f: func() error { return nil }, post: r.batchLimits})
 	}
 	return ps
 }
@@ -1122,7 +1162,7 @@ func badBlock(b *block.Block, variant int) *block.Block {
 	case 1:
 		b.Timestamp++
 	case 2:
-		b.StateRootEnabled = false
+		b.StateRootEnabled = !b.StateRootEnabled
 	case 3:
 		b.PrevStateRoot[5] ^= 1
 	}
@@ -1147,11 +1187,36 @@ func (r *runner) probe(p probeT, before string) *viol {
 	}
 	r.stats.probes.Inc()
 	r.stats.outcome(p.e.K + "->" + res)
+	if strings.HasPrefix(p.e.K, "p-init-") {
+		r.stats.initProbes.Inc()
+		if err != nil {
+			r.stats.initRefused.Inc()
+		}
+	}
 	if after != before {
 		return &viol{Oracle: "bad-data-changed-state:" + p.e.K, What: fmt.Sprintf("%s returned %v and changed the state: %s -> %s", p.e, err, before, after)}
 	}
 	if p.needErr && err == nil {
 		return &viol{Oracle: "bad-data-no-error:" + p.e.K, What: fmt.Sprintf("%s was accepted without an error", p.e)}
+	}
+	if p.mustOK && err != nil {
+		return &viol{Oracle: "genuine-data-rejected:" + p.e.K, What: fmt.Sprintf("%s: %v", p.e, err)}
+	}
+	if p.post != nil {
+		var pv *viol
+		_, pan := guard(func() error { pv = p.post(); return nil })
+		if pan != nil {
+			r.poisoned = true
+			return &viol{Oracle: "panic", What: fmt.Sprintf("after %s: panic: %v", p.e, pan)}
+		}
+		if pv != nil {
+			return pv
+		}
+		if k2, kv := r.tokey(); kv != nil {
+			return kv
+		} else if k2 != before {
+			return &viol{Oracle: "bad-data-changed-state:" + p.e.K, What: fmt.Sprintf("%s and the follow-up changed the state: %s -> %s", p.e, before, k2)}
+		}
 	}
 	if err != nil {
 		r.stats.rejected.Inc()
